@@ -71,6 +71,10 @@ func (e Evt) coq() string {
 		return fmt.Sprintf("EResumeSave %d", e.T)
 	case "add":
 		return fmt.Sprintf("EAdd %d", e.T)
+	case "cleanmark":
+		return "ECleanMark"
+	case "cleansweeps":
+		return "ECleanSweeps"
 	case "resumepark":
 		return fmt.Sprintf("EResumePark %d", e.T)
 	case "relock":
@@ -145,6 +149,39 @@ type world struct {
 	// parkRetry: waiters that learn that their awaited loader failed are parked inside Metrics.ReattemptsTotal.Inc(),
 	// which getOrCreate calls (reportReattempt) outside of the lock right before `c.mu.Lock(); e, ok = c.payload[key]`
 	parkRetry atomic.Bool
+	// szOf: (cache, key, value) -> the size the loader that produces this value reports
+	szOf map[[3]int64]int64
+	// a cleaning pass parked between markStale and its sweeps: the cleaner's goroutine sits inside
+	// CleanerMetrics.Oldest.Set(), which markStale calls (OldestSet) after the generations were marked stale
+	cleanPark atomic.Bool
+	atMark    chan struct{}
+	markGo    chan struct{}
+	cleanDone chan bool
+	cleanStat *cache.CleanStat
+	cleanSnap []int
+	inPass    bool
+	markObs   int
+}
+
+// hookGauge is a prometheus gauge that runs a callback on Set.
+type hookGauge struct {
+	prometheus.Gauge
+	onSet func()
+}
+
+func (g *hookGauge) Set(v float64) {
+	g.Gauge.Set(v)
+	if g.onSet != nil {
+		g.onSet()
+	}
+}
+
+// onOldestSet runs in the goroutine that called Cleaner.Cleanup, at the end of markStale.
+func (w *world) onOldestSet() {
+	if w.cleanPark.Swap(false) {
+		w.atMark <- struct{}{}
+		<-w.markGo
+	}
 }
 
 // hookCounter is a prometheus counter that runs a callback on Inc (no source hook needed: the cache reports
@@ -215,9 +252,14 @@ func newWorld(lim uint64) *world {
 		LockWaitsTotal: newCounter(), WaitsTotal: newCounter(), ReattemptsTotal: re,
 		SizeRead: newCounter(), SizeOccupied: newCounter(), SizeReleased: newCounter(),
 		MapsRecreated: newCounter(), MissLatency: newCounter()}
-	w := &world{lim: lim, cl: cache.NewCleaner(lim, nil), met: m, ids: map[any]int{},
-		latest: map[[2]int]int{}, dirty: map[[2]int]int{}, feat: map[string]bool{}}
+	og := &hookGauge{Gauge: prometheus.NewGauge(prometheus.GaugeOpts{Name: "oldest"})}
+	cm := &cache.CleanerMetrics{Oldest: og, AddBuckets: newCounter(), DelBuckets: newCounter(),
+		CleanGenerations: newCounter(), ChangeGenerations: newCounter()}
+	w := &world{lim: lim, cl: cache.NewCleaner(lim, cm), met: m, ids: map[any]int{},
+		latest: map[[2]int]int{}, dirty: map[[2]int]int{}, feat: map[string]bool{}, szOf: map[[3]int64]int64{},
+		atMark: make(chan struct{}), markGo: make(chan struct{})}
 	re.onInc = w.onReattempt
+	og.onSet = w.onOldestSet
 	return w
 }
 
@@ -294,6 +336,9 @@ func (w *world) call(e Evt) {
 		done: make(chan res, 1), atHook: make(chan struct{}), hookGo: make(chan struct{}),
 		atRetry: make(chan struct{}), retryGo: make(chan struct{})}
 	t.goid.Store(-2)
+	if e.Kind == kVal {
+		w.szOf[[3]int64{int64(e.C), int64(e.K), e.V}] = e.Sz
+	}
 	for _, x := range w.thr {
 		if x.status == 13 && x.c == e.C && x.k == e.K {
 			w.feat["sched:another-caller-of-the-key-inside-the-retry-window"] = true
@@ -440,6 +485,9 @@ func (w *world) do(e Evt) {
 		// no goroutines, no parking
 		c := w.caches[e.C]
 		for i := 0; i < e.N; i++ {
+			if !e.Hits {
+				w.szOf[[3]int64{int64(e.C), int64(e.K + i), e.V + int64(i)}] = e.Sz
+			}
 			ran := false
 			v := c.Get(uint32(e.K+i), func() ([]byte, int) { ran = true; return enc(e.V + int64(i)), int(e.Sz) })
 			if ran == e.Hits {
@@ -515,6 +563,66 @@ func (w *world) do(e Evt) {
 			}
 		} else {
 			ret = []int64{0}
+		}
+	case "cleanmark":
+		// Cleaner.Cleanup in its own goroutine, parked at the end of markStale (generations marked stale, no cache swept yet)
+		if w.inPass {
+			w.dead = "cleanmark inside a cleaning pass"
+			return
+		}
+		st := &cache.CleanStat{}
+		w.cleanStat, w.cleanDone, w.cleanSnap = st, make(chan bool, 1), w.bucketIDs()
+		w.cleanPark.Store(true)
+		done := w.cleanDone
+		go func() { done <- w.cl.Cleanup(st) }()
+		select {
+		case <-w.atMark:
+			w.inPass, w.markObs = true, len(w.obs)
+			ret = []int64{1}
+			w.feat["sched:cleaner-parked-between-markstale-and-sweeps"] = true
+			w.epoch++
+			for _, t := range w.thr {
+				if t.status == 10 {
+					w.feat["sched:creator-in-loader-when-generations-marked-stale"] = true
+				}
+			}
+		case started := <-w.cleanDone:
+			w.cleanPark.Store(false)
+			if started {
+				w.dead = "Cleaner.Cleanup ran without passing OldestSet at the end of markStale"
+				return
+			}
+			ret = []int64{0}
+		case <-time.After(settleTimeout):
+			w.dead = "Cleaner.Cleanup neither returned nor reached the end of markStale"
+			return
+		}
+	case "cleansweeps":
+		if !w.inPass {
+			w.dead = "cleansweeps without a parked cleaning pass"
+			return
+		}
+		if fmt.Sprint(w.bucketIDs()) != fmt.Sprint(w.cleanSnap) {
+			w.dead = "the bucket list changed inside the window of a parked cleaning pass"
+			return
+		}
+		w.markGo <- struct{}{}
+		select {
+		case <-w.cleanDone:
+		case <-time.After(settleTimeout):
+			w.dead = "the parked cleaning pass did not finish"
+			return
+		}
+		w.inPass = false
+		st := w.cleanStat
+		// the numbers of the first half are known only now: patch the observation of the cleanmark event
+		first := []int64{1, int64(st.TotalSize), int64(st.SizeToClean), int64(st.GensCleaned)}
+		w.obs[w.markObs] = strings.Replace(w.obs[w.markObs], "mkObs "+zlist([]int64{1}), "mkObs "+zlist(first), 1)
+		w.obsJSON[w.markObs]["ret"] = first
+		ret = []int64{int64(st.BytesReleased), int64(st.BucketsCleaned), w.recreated()}
+		if n := w.recreated(); n > w.lastRec {
+			w.lastRec = n
+			w.feat["sched:payload-map-rebuilt"] = true
 		}
 	case "gcgens":
 		ret = []int64{int64(w.cl.CleanEmptyGenerations())}
@@ -682,6 +790,27 @@ func (w *world) liveSum() uint64 {
 	return s
 }
 
+// occSum: what the live entries really occupy: for every valid entry of every payload, entrySize + the size that the
+// loader which produced its value reported (independent of entry.size)
+func (w *world) occSum() int64 {
+	var s int64
+	for ci, c := range w.caches {
+		es, _, _ := c.VerifSnapshot(w.cl)
+		vals := c.VerifValidValues()
+		for _, e := range es {
+			if e.Loading {
+				continue
+			}
+			sz, ok := w.szOf[[3]int64{int64(ci), int64(e.Key), dec(vals[e.Key])}]
+			if !ok {
+				sz = -1 << 40 // a value nobody produced for this key
+			}
+			s += int64(w.esz) + sz
+		}
+	}
+	return s
+}
+
 func (w *world) bucketIDs() []int {
 	var bk []int
 	for _, b := range w.cl.VerifBuckets() {
@@ -705,9 +834,9 @@ func (w *world) observe(ret []int64) {
 		thr[i] = fmt.Sprintf("(%d, %d)", t.status, v)
 		thrJ[i] = [2]int64{int64(t.status), v}
 	}
-	acct, live, bk := int64(w.cl.VerifGetSize()), int64(w.liveSum()), w.bucketIDs()
-	w.obs = append(w.obs, fmt.Sprintf("mkObs %s [%s]%%Z (%d)%%Z (%d)%%Z %s", zlist(ret), strings.Join(thr, "; "), acct, live, casefile.NatList(bk)+"%nat"))
-	w.obsJSON = append(w.obsJSON, map[string]any{"ret": ret, "thr": thrJ, "acct": acct, "live": live, "buckets": bk})
+	acct, live, occ, bk := int64(w.cl.VerifGetSize()), int64(w.liveSum()), w.occSum(), w.bucketIDs()
+	w.obs = append(w.obs, fmt.Sprintf("mkObs %s [%s]%%Z (%d)%%Z (%d)%%Z (%d)%%Z %s", zlist(ret), strings.Join(thr, "; "), acct, live, occ, casefile.NatList(bk)+"%nat"))
+	w.obsJSON = append(w.obsJSON, map[string]any{"ret": ret, "thr": thrJ, "acct": acct, "live": live, "occupied": occ, "buckets": bk})
 }
 
 // parked returns the goroutines currently inside their loader.
@@ -745,6 +874,10 @@ func (w *world) drain() {
 		}
 		p := w.parked()
 		if len(p) == 0 {
+			if w.inPass {
+				w.do(Evt{Op: "cleansweeps"})
+				continue
+			}
 			return
 		}
 		// several waiters behind a failing creator: which of them becomes the next creator would be decided by the Go
@@ -759,6 +892,12 @@ func (w *world) drain() {
 
 // abandon is the emergency exit after a hang: release whatever can be released.
 func (w *world) abandon() {
+	if w.inPass {
+		select {
+		case w.markGo <- struct{}{}:
+		default:
+		}
+	}
 	for _, t := range w.thr {
 		if t.status == 10 {
 			select {
@@ -1006,7 +1145,16 @@ func genRandom(r *rng.R, cw *casefile.Writer, conc bool) {
 				w.do(Evt{Op: "rotate"})
 			}
 		case x < 90:
-			if len(w.caches) < 7 && r.Chance(1, 5) {
+			if conc && r.Chance(1, 4) {
+				// an interrupted pass: parked between markStale and the sweeps while goroutines go on
+				w.do(Evt{Op: "cleanmark"})
+				if w.inPass {
+					for j := r.Range(1, 4); j > 0 && w.dead == ""; j-- {
+						w.windowStep(r, &nextV, 5)
+					}
+					w.do(Evt{Op: "cleansweeps"})
+				}
+			} else if len(w.caches) < 7 && r.Chance(1, 5) {
 				w.do(Evt{Op: "cleanup_new", T: r.Intn(8)}) // recorded as a plain cleanup if markStale does not rotate
 			} else {
 				w.do(Evt{Op: "cleanup"})
@@ -1237,6 +1385,114 @@ func genRetry(r *rng.R, cw *casefile.Writer) {
 	w.emit(cw, "retry-window", true)
 }
 
+// windowStep: one event inside the window of a parked cleaning pass (generations marked stale, no cache swept yet): a
+// creator that entered its loader before the pass finishes (value / error / panic; plain, parked after save's unlock, or
+// with its waiters parked before their retry), a saver does its Add, a waiter re-locks, a lookup of a cached key (a hit
+// re-homes the entry to the current generation), a lookup of a new key, or a Rotate.
+func (w *world) windowStep(r *rng.R, nextV *int64, keys int) {
+	par, sav, ret := w.parked(), w.inSave(), w.atRetry()
+	x := r.Intn(100)
+	switch {
+	case x < 45 && len(par) > 0:
+		w.do(w.resumeEvt(r, rng.Pick(r, par), true))
+	case x < 55 && len(sav) > 0:
+		w.do(Evt{Op: "add", T: rng.Pick(r, sav)})
+	case x < 62 && len(ret) > 0:
+		w.do(Evt{Op: "relock", T: rng.Pick(r, ret)})
+	case x < 90:
+		lc := w.liveCaches()
+		if len(lc) == 0 {
+			return
+		}
+		*nextV++
+		e := Evt{Op: "call", C: rng.Pick(r, lc), K: r.Intn(keys), V: *nextV, Sz: int64(r.Range(0, 400)), ErrAPI: r.Bool()}
+		if cr, ok := w.latest[[2]int{e.C, e.K}]; ok && w.thr[cr].status == 10 && w.thr[cr].kind != kVal && w.waitersOf(cr) >= 3 {
+			return
+		}
+		w.do(e)
+		if id := len(w.thr) - 1; w.dead == "" && w.thr[id].status == 10 && r.Bool() {
+			w.do(w.resumeEvt(r, id, true))
+		}
+	default:
+		w.do(Evt{Op: "rotate"})
+	}
+}
+
+// pass-window schedules: a cleaning pass interrupted between markStale and the sweeps. Some entries are cached (enough to
+// exceed the limit), possibly a Rotate, then 1..3 loaders are parked (before and/or after the rotation, so that their
+// entries sit in generations the pass marks stale or in the last one); Cleaner.Cleanup is started and parked at the end of
+// markStale; inside the window the loaders finish (value, error, panic), cached keys are hit, new keys are looked up, a
+// Rotate runs; then the pass sweeps the caches and returns; afterwards the keys are looked up again (a key saved inside
+// the window must be served as a hit), and further uninterrupted passes run.
+func genPassWindow(r *rng.R, cw *casefile.Writer) {
+	w := newWorld(rng.Pick(r, []uint64{100, 300, 700, 1500}))
+	w.do(Evt{Op: "new"})
+	if r.Chance(1, 3) {
+		w.do(Evt{Op: "new"})
+	}
+	var v int64 = 100
+	const keys = 6
+	get := func(k int, kd int, finish bool) {
+		v++
+		w.do(Evt{Op: "call", C: r.Intn(len(w.caches)), K: k, V: v, Sz: int64(r.Range(50, 400)), Kind: kd, ErrAPI: r.Bool()})
+		if id := len(w.thr) - 1; finish && w.dead == "" && w.thr[id].status == 10 {
+			w.do(Evt{Op: "resume", T: id})
+		}
+	}
+	kind := func() int {
+		switch x := r.Intn(10); {
+		case x < 6:
+			return kVal
+		case x < 8:
+			return kErr
+		}
+		return kPanic
+	}
+	for i := r.Range(1, 4); i > 0; i-- {
+		get(r.Intn(keys), kVal, true)
+	}
+	early := r.Intn(3) // loaders parked before the rotation
+	for i := 0; i < early; i++ {
+		get(r.Intn(keys), kind(), false)
+	}
+	if r.Bool() {
+		w.do(Evt{Op: "rotate"})
+		for i := r.Intn(3); i > 0; i-- {
+			get(r.Intn(keys), kVal, true)
+		}
+	}
+	for i := r.Range(0, 2); i > 0 || len(w.parked()) == 0; i-- {
+		get(r.Intn(keys), kind(), false)
+		if i < -4 {
+			break
+		}
+	}
+	for pass := r.Range(1, 2); pass > 0 && w.dead == ""; pass-- {
+		w.do(Evt{Op: "cleanmark"})
+		if w.inPass {
+			for i := r.Range(1, 5); i > 0 && w.dead == ""; i-- {
+				w.windowStep(r, &v, keys)
+			}
+			w.do(Evt{Op: "cleansweeps"})
+		}
+		for i := r.Intn(4); i > 0 && w.dead == ""; i-- {
+			get(r.Intn(keys), kind(), r.Bool())
+		}
+	}
+	w.drain()
+	for i := r.Intn(3); i > 0 && w.dead == ""; i-- {
+		switch r.Intn(3) {
+		case 0:
+			w.do(Evt{Op: "cleanup"})
+		case 1:
+			w.do(Evt{Op: "gcgens"})
+		default:
+			get(r.Intn(keys), kVal, true)
+		}
+	}
+	w.emit(cw, "pass-window", true)
+}
+
 // rotation schedules: n caches, a rotation (through Rotate, or through markStale when Cleanup has to mark the last
 // generation stale as well) from whose pos-th SetGeneration call a NewCache -> AddBucket is started; then loads on
 // the new cache and cleaning passes that drop the old generation
@@ -1392,6 +1648,28 @@ func witnesses(cw *casefile.Writer) {
 		w.do(Evt{Op: "release", C: 0})
 		w.emit(cw, "witness-M9", true)
 	}
+	// M12 (regression stream, strict; Props.v: C18_save_stale_zero_refuted): a load that was started before a cleaning pass
+	// finishes after markStale marked its generation stale and before its cache is swept. save re-homes the entry to the
+	// current generation, the sweep keeps it, a later lookup is a hit: its full size must be accounted. With save's
+	// `if e.deleted` widened to `e.deleted || e.gen.stale` the entry lived on with size 0 (accounted 0, occupied 168).
+	for _, rot := range []bool{false, true} {
+		w = newWorld(100)
+		w.do(Evt{Op: "new"})
+		w.do(Evt{Op: "call", C: 0, K: 7, V: 1, Sz: 100})
+		w.do(Evt{Op: "resume", T: 0})
+		w.do(Evt{Op: "call", C: 0, K: 1, V: 2, Sz: 100})
+		if rot { // the ordinary path of markStale (an older generation) instead of the rotate-and-drop-last fallback
+			w.do(Evt{Op: "rotate"})
+			w.do(Evt{Op: "call", C: 0, K: 8, V: 3, Sz: 10})
+			w.do(Evt{Op: "resume", T: 2})
+		}
+		w.do(Evt{Op: "cleanmark"})
+		w.do(Evt{Op: "resume", T: 1})
+		w.do(Evt{Op: "cleansweeps"})
+		w.do(Evt{Op: "call", C: 0, K: 1, V: 9, Sz: 1})
+		w.drain()
+		w.emit(cw, "witness-M12", true)
+	}
 	// R3: Release while a creator is inside its loader (outside the stated domain: callers finish
 	// before a cache is released; counted, not reported)
 	w = newWorld(2000)
@@ -1453,9 +1731,9 @@ func main() {
 	}
 	installHook()
 	r := rng.New(*seed)
-	nSeq, nConc, maxN, nRebuild, nRetry := 1000, 1000, 5, 16, 300
+	nSeq, nConc, maxN, nRebuild, nRetry, nPass := 1000, 1000, 5, 16, 300, 300
 	if *tier == "thorough" {
-		nSeq, nConc, maxN, nRebuild, nRetry = 20000, 20000, 6, 300, 4000
+		nSeq, nConc, maxN, nRebuild, nRetry, nPass = 20000, 20000, 6, 300, 4000, 4000
 	}
 	witnesses(cw)
 	// exhaustive release subsets, ascending release order, for 1..maxN caches (6 in the thorough tier);
@@ -1493,6 +1771,9 @@ func main() {
 	}
 	for i := 0; i < nRetry; i++ {
 		genRetry(r, cw)
+	}
+	for i := 0; i < nPass; i++ {
+		genPassWindow(r, cw)
 	}
 	for i := 0; i < nSeq/4; i++ {
 		genBoundary(r, cw)
